@@ -20,6 +20,7 @@ var (
 )
 
 func runC15(r *Report) {
+	ruleSizeIsAppendPosition(r)
 	p := r.P
 	o := &order{r, p}
 	fn := r.NeedFunc("compare-first", "sstables.SSTableStreamWriter.WriteNext")
